@@ -30,8 +30,9 @@ def generate(ctx, plan, deep_every):
             tid += c
             done += c
     traces = []
-    with mp.Pool(min(tlc.NCPU, max(1, len(jobs))), maxtasksperchild=4) as pool:
-        for out in pool.imap_unordered(c02.make_cases, jobs):
+    from concurrent.futures import ProcessPoolExecutor
+    with ProcessPoolExecutor(min(tlc.NCPU, max(1, len(jobs)))) as ex:
+        for out in ex.map(c02.make_cases, jobs):
             traces.extend(out)
     traces.sort(key=lambda t: t["t"])
     return traces
@@ -55,8 +56,9 @@ def validate(traces, tag="c02T"):
         p = os.path.join(wd, "tr%d.ndjson" % i)
         tlc.write_ndjson(p, sh)
         paths.append((p, "%s%d" % (tag, i)))
-    with mp.pool.ThreadPool(max(1, len(paths))) as tp:
-        results = tp.map(_validate, paths)
+    from concurrent.futures import ThreadPoolExecutor
+    with ThreadPoolExecutor(max(1, len(paths))) as tp:
+        results = list(tp.map(_validate, paths))
     verdicts = {}
     for res in results:
         for v in res.printed:
